@@ -191,7 +191,7 @@ def case(ctx, rng, idx, state):
 if __name__ == "__main__":
     harness.main(
         PROP, "exploration", case, setup_fn=setup,
-        tiers=dict(quick=dict(cases=32, shards=8, time=240), thorough=dict(cases=480, shards=16, time=1500)),
+        tiers=dict(quick=dict(cases=32, shards=8, time=900), thorough=dict(cases=480, shards=16, time=3000)),
         rule="24 crystal-structure templates with <=4 atoms (incl. magnetic ones), projections s/p/d per species (sp3 on tetrahedral sites), with and "
              "without SOC, random starting matrices (Ham, AA, SS, optionally BB, CC) and slightly displaced starting centres; distinct = (structure, "
              "projections, soc, magnetic, matrices)",
